@@ -1,5 +1,6 @@
 import AasVerif.Lemmas.JsonSchemaGenerate
 import AasVerif.Lemmas.JsonSchemaLeaf
+import AasVerif.Lemmas.JsonSchemaLookup
 /-!
 # C11 — JSON Schema is valid and never rejects valid data
 
@@ -162,6 +163,23 @@ theorem valid_data_accepted_standalone (defs : Defs) {c : Cls} {k : Text} {s : S
     (hnm : ∀ p ∈ c.props, p.name ≠ modelTypeKey) (j : Json) (hok : StandaloneOK defs c j) :
     Valid defs s j :=
   (standalone_iff defs h hleaf hroot hown hnd hnm j).mpr hok
+
+/-- **`valid_data_accepted`, end to end for a stand-alone class**: in the definitions `generate mm`
+writes, a well-formed document (`StandaloneOK`) validates against `{"$ref": "#/definitions/<Class>"}`
+— and nothing else does. -/
+theorem generated_schema_standalone_iff (mm : MM) (defs : Defs) (h : generate mm = .ok defs) {c : Cls}
+    (hc : OurType.cls c ∈ mm.types) (hleaf : c.cdesc = []) (hconc : c.abstract = false)
+    (hroot : c.inh = []) (hown : ∀ p ∈ c.props, p.own = true) (hnd : (c.props.map (·.name)).Nodup)
+    (hnm : ∀ p ∈ c.props, p.name ≠ modelTypeKey) (j : Json) :
+    Valid defs (refTo c.mt) j ↔ StandaloneOK defs c j := by
+  obtain ⟨s, hs, hlk⟩ := generate_leaf_lookup mm defs h hc hleaf hconc
+  rw [valid_ref_iff, hlk]
+  constructor
+  · rintro ⟨s', hs', hv⟩
+    cases hs'
+    exact (standalone_iff defs hs hleaf hroot hown hnd hnm j).mp hv
+  · intro hok
+    exact ⟨s, rfl, (standalone_iff defs hs hleaf hroot hown hnd hnm j).mpr hok⟩
 
 /-- **One level of the hierarchy, exactly** (the induction step of `valid_data_accepted` and of C12's
 `constraint_enforced` along the `allOf` chain): the definition of a concrete class without concrete
